@@ -265,6 +265,9 @@ func (ts *Time) UnmarshalJSON(data []byte) error {
 	}
 	switch x := v.(type) {
 	case float64:
+		if x >= 1<<63 || x < -(1<<63) {
+			return fmt.Errorf("oidc.Time: %v is out of range", x)
+		}
 		*ts = Time(x)
 	case string:
 		// Compatibility with Auth0:
